@@ -1,4 +1,4 @@
-use std::{i16, u16, u32};
+use std::{u16, u32};
 
 use miette::{bail, Result, Severity};
 
